@@ -91,7 +91,7 @@ func run(r *vk.Run) {
 
 	for k := 0; k < aliasN; k++ {
 		for _, shape := range []string{Unary, Bidi} {
-			for _, typing := range []string{"same", "mixed"} {
+			for _, typing := range []string{"same", "mixed", "opaque"} {
 				i++
 				if r.Mine(i) {
 					if !r.Guard("C13/"+shape+"/crash/rich-message-"+typing, k) {
